@@ -115,7 +115,7 @@ func init() {
 		Rule: "cases are @if constructs with 0..3 @elseif and with/without @else over every truthiness vector, with every value of the truthiness table (literal and data) at one position at a time, an erroring expression at every position, the same constructs nested in @if/@each/@for to depth 3, ternaries, @breakIf and @continueIf over the whole table, plus seeded random nestings; " +
 			"every condition carries a tracer probe (custom function tr) so the render yields an evaluation log; output and log are compared with an independent interpreter. distinct_nontrivial = distinct sources whose construct has at least one condition",
 		Assumptions: []string{
-			"branch bodies hold at least one byte of text; nil- and object-valued conditions cannot carry a tracer and are judged by output only",
+			"nil- and object-valued conditions cannot carry a tracer and are judged by output only",
 			"text right after @else starts with a space or bracket (a letter run 'if' would spell @elseif)",
 		},
 		Setup: func(c *core.Ctx) {
@@ -177,6 +177,47 @@ func init() {
 					prog = wrapStmts(prog, w2, 2)
 					prog = wrapStmts(prog, w3, 3)
 					judgeProgram(c, append(append([]model.Stmt{model.Text{S: "top "}}, prog...), model.Text{S: " end"}), data, "nested-if", true)
+				}})
+			// (2b) every subset of the bodies empty
+			type mcell struct {
+				shape  ifShape
+				vector int
+				mask   int
+			}
+			var mcells []mcell
+			for _, sh := range ifShapes {
+				nb := sh.conds
+				if sh.hasElse {
+					nb++
+				}
+				for vec := 0; vec < 1<<sh.conds; vec++ {
+					for mask := 1; mask < 1<<nb; mask++ {
+						mcells = append(mcells, mcell{sh, vec, mask})
+					}
+				}
+			}
+			secs = append(secs, core.Section{Name: "empty-bodies", Exhaustive: true, N: len(mcells),
+				Run: func(c *core.Ctx, i int) {
+					cl := mcells[i]
+					data := map[string]model.Value{}
+					var conds []model.Expr
+					for p := 0; p < cl.shape.conds; p++ {
+						conds = append(conds, condExpr(defaultCond(cl.vector&(1<<p) != 0), p, p%2 == 1, data))
+					}
+					n := buildIf(conds, cl.shape.hasElse, "")
+					for b := range n.Bodies {
+						if cl.mask&(1<<b) != 0 {
+							n.Bodies[b] = []model.Stmt{}
+						}
+					}
+					if cl.shape.hasElse && cl.mask&(1<<cl.shape.conds) != 0 {
+						n.Else = []model.Stmt{}
+					}
+					prog := []model.Stmt{model.Text{S: "pre|"}, n, model.Text{S: "|post"}}
+					if i%3 == 1 {
+						prog = wrapStmts(prog, 2, 1)
+					}
+					judgeProgram(c, prog, data, "empty-body", true)
 				}})
 			// (3) an erroring expression at every position: it must surface up to the chosen branch and never after it
 			errExprs := []model.Expr{
